@@ -8,6 +8,7 @@
 From Coq Require Import ZArith List Bool.
 From Galene Require Import Model.Etag Proofs.EtagSpec.
 From Galene Require Import Model.DescStore Proofs.DescStoreTag Proofs.DescStoreExcl Proofs.DescStoreAtomic.
+From Galene Require Import Generated.Routes Proofs.DescStoreLock.
 Import ListNotations.
 Open Scope Z_scope.
 
@@ -157,6 +158,33 @@ Theorem C18_content_matches_tag : forall wr reqs f0 sched,
      make_etag s1 = make_etag s2 -> c1 = c2 /\ s1 = s2).
 Proof. exact content_matches_tag. Qed.
 Print Assumptions C18_content_matches_tag.
+
+(* A LOADED GROUP.  Whatever earlier version of the file the running server
+   holds in memory for a loaded group, GetDescription (cached copy if
+   descriptionUnchanged: size AND mtime equal, else the file) returns the
+   current definition, with its tag: an acknowledged update is visible to the
+   next GET, and 304 is answered only for the current tag. *)
+Theorem C18_cache_transparent : forall wr reqs f0 sched cache,
+  Fresh f0 sched ->
+  let w := run wr reqs f0 sched in
+  In cache (versions f0 (w_log w)) ->
+  get_description cache (w_file w) = w_file w.
+Proof. exact cache_transparent. Qed.
+Print Assumptions C18_cache_transparent.
+
+(* EVERY UPDATE FUNCTION IS EXCLUSIVE.  The table the translator regenerates
+   from group/description.go on every run (Generated/Routes.v: every function
+   that rewrites or removes a group file, and whether groups.mu is taken
+   before its first access to the file) says "locked" for every function, and
+   its functions are exactly the ones Model/DescStore.v makes one atomic step
+   ([modelled_updates]).  This is what lets C18_exclusive and
+   C18_exclusive_no_lost_update speak about UpdateDescription,
+   DeleteDescription, UpdateUser, DeleteUser, SetUserPassword and SetKeys. *)
+Theorem C18_update_functions_exclusive :
+  (forall n l, In (n, l) update_functions -> l = true /\ In n modelled_updates) /\
+  (forall n, In n modelled_updates -> In (n, true) update_functions).
+Proof. exact update_functions_exclusive. Qed.
+Print Assumptions C18_update_functions_exclusive.
 
 (* CREATE ONCE.  A write carrying "If-None-Match: *" (any value every existing
    object matches) is acknowledged only if its object did not exist at the
